@@ -444,6 +444,14 @@ class ExprMixin:
     base = self.unopt(base)
     if isinstance(base, VVec):
       base = VTuple(base.items)
+    if isinstance(idx, VSlice) and isinstance(base, VCounterView):
+      # a prefix of the (sorted) entries: at most `hi` of them
+      if not isinstance(idx.lo, VNoneT) or not isinstance(idx.step, VNoneT) or isinstance(idx.hi, VNoneT):
+        raise Unsupported('slice of counter entries other than [:k]')
+      hi = self.to_int(idx.hi)
+      if base.limit is not None:
+        hi = z3.If(base.limit < hi, base.limit, hi)
+      return VCounterView(base.m, hi)
     if isinstance(idx, VSlice):
       return self.getslice(base, idx)
     if isinstance(base, (VTuple, VList)):
